@@ -127,6 +127,13 @@ def gen_filter(rng, events, limit_pool=(None, None, None, 0, 1, 2, 3, 5, 100)):
             f["until"] = max(0, base + rng.choice([101, 1, 0, -1, 256, 65536]))
         if rng.random() < 0.05:
             f["since"] = 0
+    if rng.random() < 0.1:
+        # hex strings of *more* than 64 digits pass the filter validation (only shorter ones are refused): they can match
+        # no event, alone or next to proper values
+        for k in ("ids", "authors"):
+            if k in f and rng.random() < 0.7:
+                long_ = rng.choice(f[k]) + rng.choice(["00", "0", "abcd", "00" * 5, "ff"])
+                f[k] = [long_] if rng.random() < 0.5 else f[k] + [long_]
     if rng.random() < 0.2:
         # clients may send hex in either case; the relay lower-cases ids / authors when it validates the filter
         for k in ("ids", "authors"):
